@@ -619,6 +619,8 @@ class PurityWorld:
         tw = t[0]
         prev = [f for f in m["fits"][:-1] if f["ok"]][-1]
         trans = _transition(prev["args"], op["args"], self.trace)
+        if m.pop("mutated", False):
+            trans = "same_buffer_new_values+" + trans
         self.probe("refit_compared:" + trans)
         a, b = public_state(obj), public_state(tw)
         only = sorted(set(a) ^ set(b))
@@ -765,6 +767,17 @@ class PurityWorld:
             self.log.add(res)
         if op.get("lane") is not None:
             self.results.setdefault(("fn", op["lane"]), []).append((op["fn"], res, op.get("env")))
+
+    def op_MUTATE(self, op, i):
+        """The caller reuses one of its own buffers: new values, same array object."""
+        vals = D.make_array(op["recipe"])
+        if self.heap.mutate(op["h"], vals):
+            self.stats["fired"]["caller:buffer_reused"] += 1
+            self.log.add("MUTATE", op["h"])
+            for m in self.meta.values():
+                m["mutated"] = True
+        else:
+            self.count("mutate_skipped_readonly")
 
     def op_RESTART(self, op, i):
         name = op["obj"]
